@@ -294,8 +294,19 @@ var c08Stmts = []string{
 	"DELETE FROM ks.t WHERE k = ?",
 }
 
+// c08Saturated: the statement is cached, the host has forgotten it, and the only backend connection has (almost) no
+// free stream id, so that the proxy's own re-PREPARE often cannot be sent.  The client must not be handed the
+// UNPREPARED error: a re-preparation that fails makes the request move on (here: to "no more hosts").
+func c08Saturated(ctx *Ctx) {
+	tag := 7000
+	t, unprepared := unpreparedSaturated(ctx, &tag, 1)
+	ctx.Emit(hv.L(hv.I(9), hv.I(int64(t.requests))), hv.L(hv.I(int64(unprepared)), hv.I(int64(t.zero))), "re-PREPARE-cannot-be-sent:saturated-connection")
+	ctx.Count("saturated-connection")
+}
+
 func genC08(ctx *Ctx) {
 	r := ctx.Rng
+	c08Saturated(ctx)
 	late := make(chan func(), 1)
 	go func() { late <- c08LateHost(ctx) }()
 
